@@ -54,8 +54,11 @@ for pdir in sorted(glob.glob(os.path.join(src, "C*"))):
     def verdict(e):
       ks = [k for k in e if k.startswith("check_") and not k.endswith("_first")]
       return ", ".join("%s %s" % (k[6:], e[k].split()[0]) for k in ks) or "-"
+    v1, v2 = verdict(e1), verdict(e2)
+    if "BEFORE the first recorded evaluation" in (info.get("note") or ""):
+      v1, v2 = "not run on the earlier check (outside its bound, see meta.json)", v1
     rows.append((pid, n, (info.get("needs") or "")[:110].replace("|", "/"), e1.get("demo_clean_exit"),
-                 e1.get("demo_patched_exit"), "%s/%s" % (t.get("passed"), t.get("pinned")), verdict(e1), verdict(e2)))
+                 e1.get("demo_patched_exit"), "%s/%s" % (t.get("passed"), t.get("pinned")), v1, v2))
 def _det(v):
   return "DETECTED" in v or "VIOLATION" in v
 waves = {}
